@@ -70,6 +70,16 @@ def r3_sorted_rows(run, w):
   disc = {n.id for (n, c, nm) in fn.calls() if nm in ("self.%s.discard" % SR,
                                                       "self.%s.remove" % SR)
           and [text(a) for a in c.args] == [ps[1]]}
+  for n in cfg.nodes:
+    # `if row in self._sorted_rows: self._sorted_rows.remove(row)` is a discard
+    if n.kind == "if" and isinstance(n.stmt.test, ast.Compare) and \
+        isinstance(n.stmt.test.ops[0], ast.In) and text(n.stmt.test.left) == ps[1] and \
+        text(n.stmt.test.comparators[0]) == "self." + SR and not n.stmt.orelse and \
+        any(fn.name(c) == "self.%s.remove" % SR and [text(a) for a in c.args] == [ps[1]]
+            for c in calls_in(n.stmt.body)):
+      inner = {m.id for (m, c, nm) in fn.calls() if nm == "self.%s.remove" % SR and
+               any(x is c for st in n.stmt.body for x in ast.walk(st))}
+      disc = (disc - inner) | {n.id}
   adds = [(n, c) for (n, c, nm) in fn.calls() if nm == "self.%s.add" % SR and
           [text(a) for a in c.args] == [ps[1]]]
   ok = bool(disc) and all(cfg.dominated_by(x, disc) for x in writes) and \
